@@ -226,7 +226,7 @@ class SymWalker:
             return Opaque("cast")
         if k == "ref":
             return self.place_val(env, rv["place"])
-        if k == "agg" and rv.get("ak") == "tuple":
+        if k == "agg" and rv.get("ak") in ("tuple", "closure"):
             # a tuple built and taken apart again (e.g. the (start, stop) pair returned by an inlined helper)
             return ("tuple", tuple(self.op_val(env, o) for o in rv["ops"]))
         return Opaque(k)
